@@ -14,6 +14,7 @@ import Driver.WiresCmd
 import Driver.ReprCmd
 import Driver.PyzxCmd
 import Driver.LayoutCmd
+import Driver.ParamCmd
 
 def handlers : List (String → List String → Option String) :=
   [ DV.CoreCmd.handle
@@ -24,6 +25,7 @@ def handlers : List (String → List String → Option String) :=
   , DV.ReprCmd.handle
   , DV.PyzxCmd.handle
   , DV.LayoutCmd.handle
+  , DV.ParamCmd.handle
   ]
 
 def handle (line : String) : String :=
